@@ -177,3 +177,9 @@ fn st_full_scope_exit_span() {
     std::mem::forget(st);
     kani::cover!(true);
 }
+pub(crate) fn stack_state(t: usize) -> crate::verif_tls::SlotState {
+    LOCAL_SPAN_STACK.state_of(t)
+}
+pub(crate) fn stack_depth_of(t: usize) -> usize {
+    LOCAL_SPAN_STACK.peek(t).map(|s| s.borrow().span_lines.len()).unwrap_or(0)
+}
